@@ -39,6 +39,7 @@ arr_cmplx _convert_range_istft(const arr_cmplx& x, int nfft, StftRange range) {
 bool iscola(const arr_real& win, int noverlap, OverlapMethod method) {
     const auto nwin = win.size();
     const auto hop = nwin - noverlap;
+    DSPLIB_ASSERT(hop > 0, "overlap must be smaller than the window length");
 
     const int pw = method == OverlapMethod::Ola ? 1 : 2;
     const int nsum = (int)std::floor(nwin / hop);
@@ -66,6 +67,7 @@ std::vector<arr_cmplx> stft(const arr_real& x, const arr_real& win, int overlap,
     const int nx = x.size();
     const int nwin = win.size();
     const int hop = nwin - overlap;
+    DSPLIB_ASSERT(hop > 0, "overlap must be smaller than the window length");
     const int nseg = (nx - overlap) / (nwin - overlap);
     const auto fftp = FftPlanR(nfft);
     arr_real px(nfft);
